@@ -159,7 +159,7 @@ def two_position_module(p1, p2, prio=(0, 0, 0), third="int"):
     return "\n\n".join(L) + "\n"
 
 
-def value_module(name, ann_methods, arg_sig, build_arg, pre, prelude="", extra_static=("object",), warm=()):
+def value_module(name, ann_methods, arg_sig, build_arg, pre, prelude="", extra_static=("object",), warm=(), native_only=False):
     """methods whose single parameter is annotated with a built-in value type.
     ann_methods: list of (annotation expr, documented-meaning expr over v)
     arg_sig: parameter list of the check function, e.g. "a: int, s: str";  build_arg: expression building the value v
@@ -187,7 +187,8 @@ def value_module(name, ann_methods, arg_sig, build_arg, pre, prelude="", extra_s
     if len(hold) > 1:
         return "AMB*"      # several value types hold: ambiguity unless the types are ordered (not asserted here)
     return None''')
-    L.append(f'''def check_dispatch({arg_sig}) -> bool:
+    cd_name = "_check_dispatch_native" if native_only else "check_dispatch"
+    L.append(f'''def {cd_name}({arg_sig}) -> bool:
     """
 {doc}    post: _
     """
@@ -199,6 +200,16 @@ def value_module(name, ann_methods, arg_sig, build_arg, pre, prelude="", extra_s
     if exp == "AMB*":
         return got == "AMB" or got in [i for i, (T, mean) in enumerate(ANN) if mean(v)]
     return got == exp''')
+    if native_only:
+        # the generated checks of these types go through metaclass __instancecheck__ hooks that CrossHair's patched isinstance does not honour
+        # (even on concrete values): decided natively at import over a grid of arguments instead of symbolically
+        params = [p_.split(":")[0].strip() for p_ in arg_sig.split(",")]
+        kinds = [p_.split(":")[1].strip() for p_ in arg_sig.split(",")]
+        doms = ["(-2, -1, 0, 1, 2, 3, 7)" if k_ == "int" else "('', 'a', 'b', 'ab', 'x', 'xy')" if k_ == "str" else "(False, True)" for k_ in kinds]
+        loops = "".join(f" for {p_} in {d_}" for p_, d_ in zip(params, doms))
+        L.append(f"NATIVE_GRID_BAD = [({', '.join(params)}){loops} if not _check_dispatch_native({', '.join(params)})]  # at import: native")
+    else:
+        L.append("NATIVE_GRID_BAD = []")
     # isinstance(value, type) against the documented meaning: concretely, over the warm-up corpus (CrossHair's patched
     # isinstance does not honour the metaclass hooks these types rely on, so this part is not symbolic)
     L.append("CORPUS = [" + ", ".join(warm) + ", object(), None, 0, 1, 2, 3, 'a', 'ab', 'abc', 'b', 'xy', 'x', '', (), [], {}, (1, 'a'), (1, 2), [1], ['a'], "
@@ -223,7 +234,7 @@ NATIVE_DISPATCH_DISAGREE = _dispatch_vs_isinstance()  # at import: native, incl.
     """
     post: _
     """
-    return not NATIVE_DISAGREE and not NATIVE_DISPATCH_DISAGREE''')
+    return not NATIVE_DISAGREE and not NATIVE_DISPATCH_DISAGREE and not NATIVE_GRID_BAD''')
     for i in range(k):
         L.append(f'''def reach_m{i}({arg_sig}) -> bool:
     """
